@@ -341,8 +341,11 @@ fn draw_cfg(c: &mut Case, d: &Data, rho: f64) -> Cfg {
     let pr = Prob::new(&d.x, &d.y, normalize, 1.0, 1.0);
     let amax = 2.0 * (0..d.p).map(|j| dotv(&pr.cols[j], &pr.r).abs()).fold(0.0f64, f64::max) / (d.n as f64 * rho);
     let u = c.rng.f();
-    let mut alpha = if u < 0.65 {
+    let mut alpha = if u < 0.5 {
         amax * c.rng.logu(1e-4, 1.0)
+    } else if u < 0.65 {
+        // the upper part of the path, where few coefficients are active and shortcuts for "alpha is large" may bite
+        amax * c.rng.uni(0.2, 1.0)
     } else if u < 0.8 {
         amax * c.rng.uni(1.0, 3.0)
     } else if u < 0.9 {
